@@ -155,7 +155,29 @@ def d_cli_isolate(name, seed, base):
     return s
 
 
-DIRECTED = [("cli_isolate_a", d_cli_isolate), ("cli_isolate_b", d_cli_isolate), ("cli_isolate_c", d_cli_isolate), ("cli_isolate_d", d_cli_isolate),
+def d_matchlinks(name, seed, base):
+    """--match-links report in which a victim already IS a hard link of the retained file (a, b = link of a, c = copy):
+    `link` must leave exactly the report's names, no stray temp file; `remove` / `link --soft` likewise"""
+    rng = core.SplitMix64(seed)
+    s = X.Scn(name, seed, base)
+    data = treegen.content(seed, 40)
+    two_roots = rng.chance(1, 2)
+    s.roots = [os.path.join(s.treedir, b"A"), os.path.join(s.treedir, b"B")] if two_roots else [os.path.join(s.treedir, b"A")]
+    s.mk(b"A/a", data)
+    s.ln(b"A/a", b"B/b" if two_roots else b"A/b")
+    s.mk(b"B/c" if two_roots else b"A/sub/c", data)
+    s.stamp_mtimes(rng)
+    s.group_opts = ["--isolate"] if (two_roots and rng.chance(1, 2)) else ["--match-links"]
+    s.fmt = rng.choice(["default", "json"])
+    X.pick_opts(s, core.SplitMix64(0), op=rng.choice(["link", "link", "softlink", "remove"]))
+    s.op_opts, s.sem = [], {"n": None, "prio": [], "keep_name": [], "keep_path": [], "name": [], "path": [], "iso": [], "mlinks": False}
+    s.no_lock = False
+    s.use_sym, s.hostile = False, False
+    s.notes.append("victim is already a hard link of the retained file")
+    return s
+
+
+DIRECTED = [("matchlinks_a", d_matchlinks), ("matchlinks_b", d_matchlinks), ("matchlinks_c", d_matchlinks), ("cli_isolate_a", d_cli_isolate), ("cli_isolate_b", d_cli_isolate), ("cli_isolate_c", d_cli_isolate), ("cli_isolate_d", d_cli_isolate),
             ("k2_remove", lambda n, sd, b: d_k2(n, sd, b, "remove")), ("k2_softlink", lambda n, sd, b: d_k2(n, sd, b, "softlink")),
             ("k2_link", lambda n, sd, b: d_k2(n, sd, b, "link")), ("k7", d_k7),
             ("linkset_rf2_a", d_linkset_rf2), ("linkset_rf2_b", d_linkset_rf2), ("linkset_rf2_c", d_linkset_rf2),
@@ -219,7 +241,7 @@ def run_case(model, scratch, kind, idx, seed):
     # (a) the model
     if model:
         victims = set(changed)
-        queries = sorted(set(inv0) | {X.canon_temp(p, victims) for p in inv1})
+        queries = sorted(set(inv0) | {X.canon_temp(p, victims, inv0) for p in inv1})
         try:
             lines = [X.model_line(s, tree_aux, queries, order=o) for o in ("fwd", "rev")]
             res = [X.parse_model_out(l) for l in core.run_lines(model, lines)]
